@@ -29,7 +29,7 @@ BOUNDS = {"quick": "Q1, Q3 configurations of C08; unit data vectors fed individu
                    "calc_estimate_sequence call; few-shot N<=3 (qst, povmt Q1), N<=2 (qst Q3, povmt m=3), N=1 (qpt, qmpt)",
           "thorough": "adds Q2 configurations, individual unit vectors up to 700 rows"}
 EXHAUSTIVE = {"quick": True, "thorough": True}
-CASE_TIMEOUT = 900
+CASE_TIMEOUT = 3600
 CHUNK = 1
 TOL_SAME = 1e-12
 
@@ -123,6 +123,9 @@ def model(cx, pairs):
     Aref, bref = cx.ref_model(pairs)
     s = np.linalg.svd(Aref, compute_uv=False)
     cond = s[0] / s[-1] if s[-1] > 0 else float("inf")
+    if cond > 1e4:
+        raise AssertionError("harness: complete tester set too ill-conditioned for a meaningful comparison (cond %.3g): %s" % (
+            cond, K.cfg_tag(cx.cfg)))
     return Aref, bref, cond
 
 
